@@ -2239,6 +2239,9 @@ class BruteForceStreamIASolver:
         # Now that we tested every possible solution, lets keep the best
         # one we found
         self._iasolver.clear()
+        # The clear method also resets the power, but the best precoders
+        # were found (and scaled) for the power P
+        self._iasolver.P = P
         self._iasolver._F = self._best_F
         self._iasolver._full_F = self._best_full_F
         self._iasolver._W_H = self._best_W_H
